@@ -64,9 +64,12 @@ type Env struct {
 	contended int
 	deadlock  string
 	Sched     *Sched
-	cleanup   []func()
-	finally   []func()
-	randN     atomic.Uint32 // number of seeded "random" reads so far (see randBytes)
+	// OnOp, if set by the scenario, is called whenever a step is recorded (before any
+	// background work of that step is waited for).
+	OnOp    func()
+	cleanup []func()
+	finally []func()
+	randN   atomic.Uint32 // number of seeded "random" reads so far (see randBytes)
 }
 
 // randBytes stands in for crypto/rand: n seeded bytes, stamped with the number of the
@@ -131,7 +134,13 @@ func (e *Env) Sample(format string, a ...any) {
 
 func (e *Env) Fault(kind string) { e.Stats.Faults[kind]++; e.Shape("fault:" + kind) }
 func (e *Env) Probe(kind string) { e.Stats.Probes[kind]++ }
-func (e *Env) Op(kind string)    { e.Stats.Ops++; e.Shape(kind) }
+func (e *Env) Op(kind string) {
+	e.Stats.Ops++
+	e.Shape(kind)
+	if e.Sched == nil {
+		Settle()
+	}
+}
 
 // Finally registers an oracle to be evaluated by the root goroutine after every task
 // of the run has finished (outside the bubble; in engine B after the root has a
